@@ -149,11 +149,11 @@ def insertWaiter (w : Waiter) : List Waiter → List Waiter
   | u :: us => if w.wid ≤ u.wid then w :: u :: us else u :: insertWaiter w us
 
 /-- `rehydrate_with_ticks`: waiters whose requirements were lost in serialisation
-re-ping their step -/
+re-ping their step; the re-run continues the suspended invocation (`Waiter.replay`) -/
 def rehydrateTicks (cfg : Cfg) (st : State) : List Tick :=
   (sortedSteps cfg).flatMap fun c =>
     (((st.workers c.name).waiters.foldr insertWaiter []).filter (fun w => w.hasReq && w.req.isNone && w.resolved.isNone && !w.timedOut)).map
-      fun w => Tick.addEvent { ev := w.ev } (some c.name)
+      fun w => Tick.addEvent w.replay (some c.name)
 
 def Runner.init (cfg : Cfg) (st0 : State) (now : Int) (start : Option Ev) (timeout : Option Nat) : Runner :=
   let startTicks := match start with | some e => [Tick.addEvent { ev := e } none] | none => []
